@@ -207,6 +207,7 @@ class Simulator:
         """
         if self.time > time:
             raise ValueError("trying to schedule an event in the past")
+        self._check_unit(time)
 
         event = SimulationEvent(
             time,
@@ -241,6 +242,7 @@ class Simulator:
         """
         if time_delta < 0:
             raise ValueError("trying to schedule an event in the past")
+        self._check_unit(self.time + time_delta)
 
         event = SimulationEvent(
             self.time + time_delta,
@@ -261,13 +263,16 @@ class Simulator:
         """
         self.event_list.remove(event)
 
-    def _schedule_event(self, event: SimulationEvent):
-        if not self.check_time_unit(event.time):
+    def _check_unit(self, time: int | float) -> None:
+        if not self.check_time_unit(time):
             raise ValueError(
-                f"time unit mismatch {event.time} is not of time unit {self.time_unit}"
+                f"time unit mismatch {time} is not of time unit {self.time_unit}"
             )
 
-        # check timeunit of events
+    def _schedule_event(self, event: SimulationEvent):
+        # the public scheduling methods validate the time before they create the event, so that a rejected
+        # call does not consume an event id
+        self._check_unit(event.time)
         self.event_list.add_event(event)
 
 
